@@ -26,7 +26,7 @@ use rustc_hir::intravisit::{self, Visitor as HirVisitor};
 use rustc_interface::interface::Compiler;
 use rustc_middle::mir::visit::{MutatingUseContext, NonMutatingUseContext, PlaceContext, Visitor as MirVisitor};
 use rustc_middle::mir::{self, Body, Operand, Place, ProjectionElem, Rvalue, StatementKind, TerminatorKind};
-use rustc_middle::ty::print::{with_crate_prefix, with_no_trimmed_paths};
+use rustc_middle::ty::print::{with_crate_prefix, with_no_trimmed_paths, with_no_visible_paths};
 use rustc_middle::ty::{self, Instance, Ty, TyCtxt, TypingEnv};
 use rustc_span::{ExpnKind, Span};
 use std::collections::BTreeSet;
@@ -69,11 +69,24 @@ fn jlist(items: &[String]) -> String {
     o
 }
 
+/// Workspace crates are printed by their defining path (not through re-exports such as
+/// `samyama::GraphStore`), so that a function has the same name from every crate.
+fn is_workspace(tcx: TyCtxt<'_>, did: DefId) -> bool {
+    did.is_local() || tcx.crate_name(did.krate).as_str().starts_with("samyama")
+}
 fn path_of(tcx: TyCtxt<'_>, did: DefId) -> String {
-    with_no_trimmed_paths!(with_crate_prefix!(tcx.def_path_str(did)))
+    if is_workspace(tcx, did) {
+        with_no_visible_paths!(with_no_trimmed_paths!(with_crate_prefix!(tcx.def_path_str(did))))
+    } else {
+        with_no_trimmed_paths!(with_crate_prefix!(tcx.def_path_str(did)))
+    }
 }
 fn path_with_args<'tcx>(tcx: TyCtxt<'tcx>, did: DefId, args: ty::GenericArgsRef<'tcx>) -> String {
-    with_no_trimmed_paths!(with_crate_prefix!(tcx.def_path_str_with_args(did, args)))
+    if is_workspace(tcx, did) {
+        with_no_visible_paths!(with_no_trimmed_paths!(with_crate_prefix!(tcx.def_path_str_with_args(did, args))))
+    } else {
+        with_no_trimmed_paths!(with_crate_prefix!(tcx.def_path_str_with_args(did, args)))
+    }
 }
 fn ty_str(ty: Ty<'_>) -> String {
     with_no_trimmed_paths!(with_crate_prefix!(ty.to_string()))
